@@ -174,56 +174,7 @@ func runC14(c *Ctx) {
 	c.Floor("C14.N2-latest-before-event", 3)
 	c.Floor("C14.N5-event-fields", 2)
 	// callers of the success notifier pass the sync's own head and count
-	handle := c15HandleFn(c)
-	for _, sf := range sendFns {
-		if c08Classify(c, sf) != "success" {
-			continue
-		}
-		for _, f := range c.Funcs(dagsyncPkg) {
-			instrs(f.SSA, func(in ssa.Instruction) {
-				ci, ok := in.(ssa.CallInstruction)
-				if !ok || ci.Common().StaticCallee() != sf {
-					return
-				}
-				x := c.CallX(ci)
-				key := f.Name + " › success notification"
-				// count = result 0 of the handler call whose error is nil here; cid = the cid given to it
-				var hcall *X
-				for _, a := range x.Args {
-					if b, ok := Match(Extract("0", BindP("h", Op("call", ""))), a); ok {
-						if hc, ok := b["h"].V.(*ssa.Call); ok && hc.Call.StaticCallee() == handle {
-							hcall = b["h"]
-						}
-					}
-				}
-				if hcall == nil {
-					c.Bad("C14.N5-event-fields", key, in.Pos(), "count passed to the success notifier is not the handler's result")
-					return
-				}
-				_, g := c.Guarded(in, EqNil(Extract("1", Is(hcall))), true)
-				// the CID notified is the root CID the handler was given (positional, or in a parameter object — then
-				// read back from it only if the handler cannot have written it)
-				sameCid := false
-				var root *X
-				if hc, ok := hcall.V.(*ssa.Call); ok {
-					root = slotOf(c.SlotArgs(CallSite{In: hc, Fn: f.SSA, X: hcall}), "go-cid.Cid", 0)
-				}
-				isCid := func(a *X) bool {
-					return a != nil && a.V != nil && strings.HasSuffix(types.Unalias(a.V.Type()).String(), "go-cid.Cid")
-				}
-				for i, a := range x.Args {
-					if i == 0 || root == nil || !(isCid(a) || isCid(root)) {
-						continue
-					}
-					if Same(a, root) || (a.V != nil && a.V == root.V) {
-						sameCid = true
-					}
-				}
-				c.Check(g && sameCid, "C14.N5-event-fields", key, in.Pos(), "notified CID is the one synced, count is the handler's result, call dominated by handler err == nil",
-					"success notification not tied to the sync that finished (wrong CID/count or reachable on error)")
-			})
-		}
-	}
+	syncedHeadRecorded(c, "C14.N5-event-fields", sendFns)
 
 	// closers / receivers of the event channel
 	for _, f := range c.Funcs(dagsyncPkg) {
@@ -504,6 +455,77 @@ func listenerQueuesUnbounded(c *Ctx, rule string) {
 				}
 			}
 			c.Check(rets > 0, rule, key+" › returned channel", pos, "every return hands out Out() of the same queue", "a return path hands out a channel that is not the output side of the registered queue")
+		}
+	}
+}
+
+// syncedHeadRecorded: every call of the success notifier (which records the
+// latest-synced CID — the stop point of the next sync — and notifies the
+// listeners) passes the root CID the per-publisher sync routine was given and
+// that routine's own count, on its err == nil edge. Shared by C14 (what is
+// notified) and C01 (what the next sync stops at).
+func syncedHeadRecorded(c *Ctx, rule string, sendFns []*ssa.Function) {
+	handle := c15HandleFn(c)
+	for _, sf := range sendFns {
+		if c08Classify(c, sf) != "success" {
+			continue
+		}
+		for _, f := range c.Funcs(dagsyncPkg) {
+			instrs(f.SSA, func(in ssa.Instruction) {
+				ci, ok := in.(ssa.CallInstruction)
+				if !ok || ci.Common().StaticCallee() != sf {
+					return
+				}
+				x := c.CallX(ci)
+				key := f.Name + " › success notification"
+				// count = result 0 of the handler call whose error is nil here; cid = the cid given to it
+				var hcall *X
+				for _, a := range x.Args {
+					if b, ok := Match(Extract("0", BindP("h", Op("call", ""))), a); ok {
+						if hc, ok := b["h"].V.(*ssa.Call); ok && hc.Call.StaticCallee() == handle {
+							hcall = b["h"]
+						}
+					}
+				}
+				if hcall == nil {
+					c.Bad(rule, key, in.Pos(), "count passed to the success notifier is not the handler's result")
+					return
+				}
+				_, g := c.Guarded(in, EqNil(Extract("1", Is(hcall))), true)
+				// the CID notified is the root CID the handler was given (positional, or in a parameter object — then
+				// read back from it only if the handler cannot have written it)
+				sameCid := false
+				var root *X
+				if hc, ok := hcall.V.(*ssa.Call); ok {
+					root = slotOf(c.SlotArgs(CallSite{In: hc, Fn: f.SSA, X: hcall}), "go-cid.Cid", 0)
+				}
+				var isCid func(a *X) bool
+				isCid = func(a *X) bool {
+					if a == nil {
+						return false
+					}
+					if a.V == nil && a.Op == "phi" {
+						// a merge of the stores reaching a field read: typed like what is stored
+						for _, e := range a.Args {
+							if isCid(e) {
+								return true
+							}
+						}
+						return false
+					}
+					return a.V != nil && strings.HasSuffix(types.Unalias(a.V.Type()).String(), "go-cid.Cid")
+				}
+				for i, a := range x.Args {
+					if i == 0 || root == nil || !(isCid(a) || isCid(root)) {
+						continue
+					}
+					if Same(a, root) || (a.V != nil && a.V == root.V) {
+						sameCid = true
+					}
+				}
+				c.Check(g && sameCid, rule, key, in.Pos(), "notified CID is the one synced, count is the handler's result, call dominated by handler err == nil",
+					"success notification not tied to the sync that finished (wrong CID/count or reachable on error)")
+			})
 		}
 	}
 }
